@@ -79,9 +79,10 @@ pub fn with_watchdog<F: FnOnce() -> String + Send + 'static>(f: F) -> String {
                         format!("FAIL panic: {}",msg.replace('\n'," ")) }
         });
     });
-    match rx.recv_timeout(Duration::from_secs(8)) {
+    let secs = std::env::var("A2V_WATCHDOG").ok().and_then(|v| v.parse::<u64>().ok()).unwrap_or(8);
+    match rx.recv_timeout(Duration::from_secs(secs)) {
         Ok(s) => s,
-        Err(_) => "FAIL hang: no result within 8 s".to_string()
+        Err(_) => format!("FAIL hang: no result within {} s",secs)
     }
 }
 
